@@ -18,9 +18,11 @@ from hv import Case
 from props import c16
 
 SPEC = {
-    "lean_modules": ["Honeycomb.Props.C17", "Honeycomb.Props.C17Surf", "Honeycomb.Props.C16Grid", "Honeycomb.Props.C16EdgeInsert", "Honeycomb.Props.C16Chain", "Honeycomb.Props.C16ChainGrid", "Honeycomb.Props.C16Step5Pipe"],
-    "gen": ["anchors"],
+    "lean_modules": ["Honeycomb.Props.C17", "Honeycomb.Props.C17Surf", "Honeycomb.Props.C16Grid", "Honeycomb.Props.C16EdgeInsert", "Honeycomb.Props.C16Chain", "Honeycomb.Props.C16ChainGrid", "Honeycomb.Props.C16Step5Pipe", "Honeycomb.Props.C16Gen"],
+    "gen": ["anchors", "gcross"],
     "required_theorems": [
+        # Props/C16Gen.lean: the intersection step generate_intersection_data of grisubal/routines/compute_intersecs.rs as translated IS crossingsOf
+        "C16_gen_cross_step", "C16_gen_cross_arms_complete", "C16_gen_cross_macro_names",
         "C17_classify_frame", "C17_classify_WF", "C17_classify_ok_all_anchored",
         "C17_markCurve_terminates", "C17_markCurve_ok_of_closed", "C17_markCurve_err_leaves_boundary",
         "C17_core_faces_and_boundary_edges_anchored", "C17_boundary_loop_terminates", "C17_classify_terminates",
